@@ -130,7 +130,8 @@ func V4P(r *hlib.Rand, proto int) ([]byte, Meta) {
 	case 0:
 		ff = 0x2000 // first fragment
 	case 1:
-		ff = uint16(hlib.Pick(r, 1, 0x1f00, 0x1fff, 0x00ff, 0x0100, r.Intn(0x2000)))
+		// every single offset bit, so that a wrong mask is seen
+		ff = uint16(hlib.Pick(r, 1, 0x1f00, 0x1fff, 0x00ff, 0x0100, r.Intn(0x2000), 1<<uint(r.Intn(13)), 1<<uint(r.Intn(13))))
 		if r.Bool() {
 			ff |= 0x2000
 		}
@@ -224,7 +225,8 @@ func V6P(r *hlib.Rand, nExt int, proto int) ([]byte, Meta, []int) {
 		case 44:
 			h := make([]byte, 8)
 			if !frag && r.Chance(1, 5) {
-				binary.BigEndian.PutUint16(h[2:], uint16(hlib.Pick(r, 8, 0xfff8, 0x0100, 0x0008|1, r.Intn(0x2000)<<3)))
+				binary.BigEndian.PutUint16(h[2:], uint16(hlib.Pick(r, 8, 0xfff8, 0x0100, 0x0008|1, r.Intn(0x2000)<<3,
+					(1<<uint(r.Intn(13)))<<3, (1<<uint(r.Intn(13)))<<3)))
 			} else if r.Bool() {
 				h[3] = 1 // M
 			}
@@ -322,4 +324,29 @@ func Any(r *hlib.Rand) ([]byte, Meta) {
 	}
 	b, m, bounds := V6(r, NExtPick(r))
 	return Damage(r, b, m, bounds)
+}
+
+// FragBits returns IPv4 UDP packets with each single bit of the flags/fragment-offset field set, and
+// IPv6 UDP packets behind a fragment header with each single bit of its offset/flags field set.
+func FragBits() [][]byte {
+	var out [][]byte
+	for bit := 0; bit < 16; bit++ {
+		b := make([]byte, 28)
+		b[0] = 0x45
+		binary.BigEndian.PutUint16(b[2:], 28)
+		binary.BigEndian.PutUint16(b[6:], 1<<uint(bit))
+		b[8], b[9] = 64, 17
+		copy(b[12:], []byte{10, 0, 0, 1, 10, 0, 0, 2, 0x12, 0x34, 0, 53, 0, 8, 0, 0})
+		binary.BigEndian.PutUint16(b[10:], csum(b[:20], 0))
+		out = append(out, b)
+		c := make([]byte, 56)
+		c[0], c[6], c[7] = 0x60, 44, 64
+		binary.BigEndian.PutUint16(c[4:], 16)
+		c[8], c[23], c[24], c[39] = 0xfd, 1, 0xfd, 2
+		c[40] = 17
+		binary.BigEndian.PutUint16(c[42:], 1<<uint(bit))
+		copy(c[48:], []byte{0x12, 0x34, 0, 53, 0, 8, 0, 0})
+		out = append(out, c)
+	}
+	return out
 }
